@@ -195,3 +195,50 @@ def only(prefix, fails):
         if f["clause"].startswith(prefix + ":"):
             out.append(dict(f, clause=f["clause"].split(":", 1)[1]))
     return out
+
+
+def derived_threshold_harness(which, prefix, quick):
+    """(m, n) pairs whose interval count m-1 crosses c // n for every threshold c of mc.alphabets.thresholds: behaviour
+    that starts where a block of c *oversampled* samples ends (a work buffer, a chunk) depends on m and n together"""
+    from fractions import Fraction as F
+    pairs = [pr for pr in A.product_pairs((12, 48) if quick else (7, 12, 48, 120), 9000 if quick else 70000) if pr[0] > 44]
+
+    def body(ctx):
+        st = ctx.choose(RC.WINDOW, "strategy")
+        gk = ctx.choose(["uniform", "gaps"], "grid")
+        m, n = ctx.choose(pairs, "m,n")
+        yp = ctx.choose(["saw", "steps"], "y")
+        for p in RC.param_sets(st, n, alphas=[F(1)], betas=[F(1, 2)], exps=[2], smooths=[1], explicit_a=False):
+            case = {"kind": "window-long", "which": which, "len": m, "grid": gk, "ypattern": yp, "strategy": st, "n": n, "p": RC.pkey(p)}
+            fails, sig = check_window_long(case)
+            ctx.call(1)
+            ctx.bulk(1)
+            for f in only(prefix, fails):
+                ctx.fail(f["clause"], case, f.get("detail"), f.get("key"))
+            if sig is not None:
+                ctx.outcome(sig[:3])
+    return {"name": "intervals-across-derived-thresholds", "body": body,
+            "bound_text": "(m, n) with m-1 within -1..+3 of c // n for c in %s: %d pairs" % (A.thresholds(9000 if quick else 70000), len(pairs))}
+
+
+def every_n_harness(which, prefix, quick):
+    """every oversampling factor n in 2..64 (130 in the thorough tier) on two short series: float rounding of 1/n, n*step
+    or linspace-style index arithmetic bites at isolated n (49, 98, 103, ...) that no small alphabet of n contains"""
+    from fractions import Fraction as F
+    ns = list(range(2, 65 if quick else 131))
+    series = [([0.0, 1.0, 2.0, 3.0, 4.0], [0.0, 1.0, 3.0, 0.0, 2.0]), ([0.0, 0.5, 2.0, 3.0, 3.25, 5.0], [2.0, 2.0, 5.0, 1.0, 0.0, 1.0])]
+
+    def body(ctx):
+        st = ctx.choose(RC.WINDOW, "strategy")
+        x, y = ctx.choose(series, "series")
+        n = ctx.choose(ns, "n")
+        for p in RC.param_sets(st, n, alphas=[F(1, 2), F(1)], betas=[F(1, 2)], exps=[2], smooths=[1], explicit_a=False):
+            case = {"kind": "window", "which": which, "x": x, "y": y, "strategy": st, "n": n, "p": RC.pkey(p)}
+            fails, sig = check_window(case)
+            ctx.call(1)
+            ctx.bulk(1)
+            for f in only(prefix, fails):
+                ctx.fail(f["clause"], case, f.get("detail"), f.get("key"))
+            if sig is not None:
+                ctx.outcome(sig[:3])
+    return {"name": "every-n", "body": body, "bound_text": "every n in 2..%d x 4 window strategies x 2 series x alpha in {1/2, 1}" % ns[-1]}
